@@ -72,6 +72,7 @@ type Exec struct {
 	skipHeadOnce   *ssa.BasicBlock
 	writtenOuter   map[string]*Sort // writes to objects not fresh w.r.t. the enclosing function
 	parentFresh    map[*Term]bool
+	iterStart      map[*ssa.BasicBlock]*State
 }
 
 type unsupported struct{ msg string }
@@ -434,6 +435,10 @@ func (ex *Exec) enterLoop(st *State, h *ssa.BasicBlock, pred *ssa.BasicBlock) bo
 				g := ex.evalClause(st, fr, c, nil)
 				ex.oblige(st, "invariant.step", fmt.Sprintf("loop%d %s", ord, c.Label), c.Tags, g, c.Src, where)
 			}
+			for _, c := range spec.Progress {
+				g := ex.evalClause(st, fr, c, nil)
+				ex.oblige(st, "progress", fmt.Sprintf("loop%d %s", ord, c.Label), c.Tags, g, c.Src, where)
+			}
 		}
 		return false
 	}
@@ -482,6 +487,15 @@ func (ex *Exec) enterLoop(st *State, h *ssa.BasicBlock, pred *ssa.BasicBlock) bo
 			st.assume(ex.evalClause(st, fr, c, nil))
 		}
 	}
+	for n := range fr.names {
+		if strings.HasPrefix(n, "first_") {
+			delete(fr.names, n)
+		}
+	}
+	if ex.iterStart == nil {
+		ex.iterStart = map[*ssa.BasicBlock]*State{}
+	}
+	ex.iterStart[h] = st.clone()
 	// implicit facts for range-index loops: -1 <= phi
 	for phi, v := range hv {
 		if phi.Comment == "rangeindex" {
@@ -629,6 +643,9 @@ func (ex *Exec) execFrom(st *State, b *ssa.BasicBlock, idx int, pred *ssa.BasicB
 						c.st.top().vals[y] = c.val
 						if f := y.Common().StaticCallee(); f != nil {
 							c.st.top().names["call_"+f.Name()] = namedVal{v: c.val}
+							if _, seen := c.st.top().names["first_"+f.Name()]; !seen {
+								c.st.top().names["first_"+f.Name()] = namedVal{v: c.val}
+							}
 							if c.val.K == VTuple {
 								for i, e := range c.val.Fs {
 									c.st.top().names[fmt.Sprintf("call_%s_%d", f.Name(), i)] = namedVal{v: e}
@@ -1425,6 +1442,7 @@ func (ex *Exec) chanRecv(st *State, x *ssa.UnOp, ch *Val) []*State {
 	ln := st.get("Chlen", SArr(SRef, SInt))
 	st.assume(Ge(Select(ln, ch.T), IntLit(0, SInt)))
 	ex.note("A-chan: a blocking receive is assumed to complete (no deadlock/termination claim)")
+	ex.waitOn(st, ch.T)
 	if x.CommaOk {
 		fr.vals[x] = &Val{K: VTuple, Fs: []*Val{v, scalar(Fresh("recvok", SBool), types.Typ[types.Bool])}}
 	} else {
@@ -1489,8 +1507,31 @@ func (ex *Exec) selectOp(st *State, x *ssa.Select) []*State {
 	return outs
 }
 
-// selectHook lets ghost-time modelling observe which case was taken.
-func (ex *Exec) selectHook(s *State, x *ssa.Select, i int) {}
+// selectHook models ghost time for a blocking select: the chosen channel fired,
+// the virtual clock did not go backwards and is past the timer's due time, and
+// one blocking wait happened.
+func (ex *Exec) selectHook(s *State, x *ssa.Select, i int) {
+	if !x.Blocking {
+		return
+	}
+	ch := ex.val(s, x.States[i].Chan).T
+	ex.waitOn(s, ch)
+}
+
+const ghostClock = "G|ghost.clock|"
+const ghostWaits = "G|ghost.waits|"
+
+func (ex *Exec) waitOn(s *State, ch *Term) {
+	ex.note("A-ctx/time: blocking waits advance one ghost clock; a timer channel fires no earlier than its due time; ctx.Done fires only if the context ended")
+	old := s.get(ghostClock, SInt)
+	nc := Fresh("clock", SInt)
+	s.assume(Ge(nc, old))
+	s.assume(Implies(App("isTimer", SBool, ch), Ge(nc, App("timerOf", SInt, ch))))
+	s.assume(App("chanFired", SBool, ch, nc))
+	ex.set(s, ghostClock, nc)
+	w := s.get(ghostWaits, SInt)
+	ex.set(s, ghostWaits, Add(w, IntLit(1, SInt)))
+}
 
 // assumeLoaded adds the type invariants of values read from the heap: slice
 // lengths are non-negative, a nil slice has length 0.
